@@ -128,7 +128,10 @@ var cacheModel = porcupine.Model{
 }
 
 func c14ExecRun(t *rapid.T) {
-	scenario := 1 + uni(t, "scenario", 3)
+	// scenario 4: nothing is parsed by the controller; every task parses for itself (NewTemplate) and executes:
+	// in the first case of a fresh process this is the process's FIRST use of lexer, parser and evaluator, from
+	// several goroutines at once (lazily initialised package-level tables and the like)
+	scenario := 1 + uni(t, "scenario", 4)
 	maxTasks := 6
 	if thorough {
 		maxTasks = 32
@@ -161,6 +164,8 @@ func c14ExecRun(t *rapid.T) {
 		for x := 0; x < n; x++ {
 			o := execOp{prog: uni(t, "prog", nprog), variant: uni(t, "variant", nvar)}
 			switch scenario {
+			case 4:
+				o.kind = 6
 			case 1, 2:
 				o.kind = []int{0, 0, 0, 4, 1, 5, 5}[uni(t, "kind", 7)]
 			default:
@@ -199,20 +204,30 @@ func c14ExecRun(t *rapid.T) {
 	}
 
 	// ---- shared objects
+	if scenario == 4 {
+		cacheOn = false
+	}
 	plush.CacheEnabled = cacheOn
-	sharedLayout, lerr := plush.NewTemplate(layoutText)
-	if lerr != nil {
-		t.Fatalf("VERIF-INTERNAL layout does not parse: %v", lerr)
+	var sharedLayout *plush.Template
+	if scenario != 4 {
+		var lerr error
+		sharedLayout, lerr = plush.NewTemplate(layoutText)
+		if lerr != nil {
+			t.Fatalf("VERIF-INTERNAL layout does not parse: %v", lerr)
+		}
 	}
 	shared := make([]*plush.Template, nprog)
 	parents := make([]*plush.Context, nprog)
 	var snaps []*liveTmpl
 	for i, p := range progs {
+		if scenario == 4 {
+			break
+		}
 		var err error
 		if cacheOn && scenario != 3 {
-			shared[i], err = plush.Parse(p.Main)
+			shared[i], err = guardedParse(p.Main)
 		} else {
-			shared[i], err = plush.NewTemplate(p.Main)
+			shared[i], err = guardedNewTemplate(p.Main)
 		}
 		if err != nil {
 			if p.Broken == "" {
@@ -226,7 +241,7 @@ func c14ExecRun(t *rapid.T) {
 			parents[i] = mkParent(p)
 		}
 		if scenario == 3 && cacheOn && (warm == 2 || (warm == 1 && i%2 == 0)) {
-			if tm, err := plush.Parse(p.Main); err == nil {
+			if tm, err := guardedParse(p.Main); err == nil {
 				snaps = append(snaps, &liveTmpl{t: tm, prog: i, snap: snapshot(plush.VerifProgram(tm))})
 			}
 		}
@@ -256,6 +271,12 @@ func c14ExecRun(t *rapid.T) {
 				var input string
 				var cops []cacheEvent
 				kind := o.kind
+				if kind == 6 {
+					var tm *plush.Template
+					if tm, err = guardedNewTemplate(p.Main); err == nil {
+						out, err = safeExec(tm, ctx)
+					}
+				}
 				if shared[o.prog] == nil && (kind == 0 || kind == 4 || kind == 5) {
 					kind = 1 + uni3(i+x) // broken text: Parse+Exec, Render or CacheSet+Render
 				}
@@ -274,7 +295,7 @@ func c14ExecRun(t *rapid.T) {
 				case 1:
 					var tm *plush.Template
 					ev := cacheEvent{text: p.Main, call: simrt.Tick()}
-					tm, err = plush.Parse(p.Main)
+					tm, err = guardedParse(p.Main)
 					ev.ret, ev.tmpl = simrt.Tick(), tm
 					if err == nil {
 						cops = append(cops, ev)
@@ -285,7 +306,7 @@ func c14ExecRun(t *rapid.T) {
 					out, err = safeRender(p.Main, ctx)
 				case 3:
 					var tm *plush.Template
-					tm, err = plush.NewTemplate(p.Main)
+					tm, err = guardedNewTemplate(p.Main)
 					if err == nil {
 						ev := cacheEvent{set: true, text: p.Main, tmpl: tm, call: simrt.Tick()}
 						plush.CacheSet(p.Main, tm)
@@ -358,6 +379,9 @@ func c14ExecRun(t *rapid.T) {
 	}
 
 	scName := fmt.Sprintf("S%d", scenario)
+	if scenario == 4 {
+		scName = "S6" // S4 and S5 are the context scenarios of c14ctx.go
+	}
 	details := func(msg string) func() map[string]interface{} {
 		return func() map[string]interface{} {
 			var ps []interface{}
@@ -459,7 +483,7 @@ func c14ExecRun(t *rapid.T) {
 			var r execRes
 			rsim := simrt.NewSim(rapidChooser{t}, simrt.Options{Policy: simrt.RoundRobin, MaxSteps: 2000000})
 			rsim.Go("ref", func() {
-				tm, err := plush.NewTemplate(p.Main)
+				tm, err := guardedNewTemplate(p.Main)
 				var out string
 				if err == nil {
 					ctx := mkCtx(parent, rt)
